@@ -183,8 +183,12 @@ func atStart(g *gen.Guarded, n int) (data, mar []byte) {
 }
 
 func fill(b []byte, v byte) {
-	for i := range b {
-		b[i] = v
+	if len(b) == 0 {
+		return
+	}
+	b[0] = v
+	for i := 1; i < len(b); i *= 2 {
+		copy(b[i:], b[:i])
 	}
 }
 
